@@ -16,7 +16,8 @@ T == Traces[tid].ev
 C == Traces[tid].const
 
 CfgOf(c) == [has |-> [o \in Opt |-> c.has[o]], su |-> [o \in Opt |-> c.su[o]], disc |-> [o \in Opt |-> c.disc[o]],
-             conn |-> [o \in Opt |-> c.conn[o]], rel |-> [o \in Opt |-> c.rel[o]], beep |-> c.beep,
+             conn |-> [o \in Opt |-> c.conn[o]], rel |-> [o \in Opt |-> c.rel[o]],
+             empty |-> [o \in Opt |-> c.empty[o]], beep |-> c.beep,
              role |-> c.role, env |-> c.env, k |-> c.k, termAt |-> c.termAt]
 
 TInit ==
@@ -67,9 +68,11 @@ Match ==
       [] OTHER -> FALSE
 
 Guarded == IsEv /\ CfgOk /\ Match
+\* callbacks of an option given as {} are the built-in defaults: they happen, but no user code sees them
+VisLen(s) == Cardinality({i \in DOMAIN s : ~cfg.empty[s[i].o]})
 IsCbEv == Ev.a \in {"Startup", "Discover", "Connect", "Release"}
 PostOk == /\ polls' = Ev.polls
-          /\ Len(cb') = Ev.ncb
+          /\ VisLen(cb') = Ev.ncb
           /\ led' = Ev.led
 
 InvNames == <<"Order", "ReleaseIff", "ReturnValue", "Prompt", "Led", "MuteWhenNone", "TargetFresh", "Pauses">>
@@ -88,6 +91,16 @@ InvP(n) == CASE n = "Order" -> OrderP(cb')
 AllInv == \A i \in DOMAIN InvNames : InvP(InvNames[i])
 
 Real == Guarded /\ PostOk /\ AllInv
+
+\* A default callback of an option given as {}: a step of the model without an event of its own.  (A disturbed
+\* activation - env tagX - is not combined with rdwr = {}: its outcome could not be told from the next event.)
+Silent ==
+    /\ l <= Len(T) /\ UNCHANGED <<tid, l>> /\ CfgOk
+    /\ \/ pc = "startup" /\ cfg.empty[role] /\ Startup
+       \/ cfg.empty["rdwr"] /\ (RdwrDiscoverP(TRUE) \/ RdwrConnect \/ Release("rdwr", "rdwr_rel"))
+       \/ cfg.empty["llcp"] /\ (LlcConnect \/ Release("llcp", "llcp_rel"))
+       \/ cfg.empty["card"] /\ (CardDiscover \/ CardConnect \/ Release("card", "card_rel"))
+    /\ OrderP(cb') /\ ReleaseIffP(cb', pc' = "done") /\ PromptP(after', lateWork') /\ LedP(pc', led')
 
 FailedInv == SelectSeq(InvNames, LAMBDA n : ~ENABLED (Guarded /\ PostOk /\ InvP(n)))
 
@@ -113,7 +126,7 @@ Why == IF ~CfgOk THEN <<"config", "not a canonical configuration">>
 
 Stuck ==
     /\ l <= Len(T)
-    /\ ~ENABLED Real
+    /\ ~ENABLED Real /\ ~ENABLED Silent
     /\ PrintT(<<"STUCK", Traces[tid].id, l, Ev.a, Why>>)
     /\ l' = Len(T) + 2
     /\ UNCHANGED <<cfg, pc, role, left, polls, envk, gone, found, cb, ret, led, err, termSeen, after, lateWork, tid>>
@@ -126,7 +139,7 @@ Incomplete ==
     /\ l' = Len(T) + 2
     /\ UNCHANGED <<cfg, pc, role, left, polls, envk, gone, found, cb, ret, led, err, termSeen, after, lateWork, tid>>
 
-TNext == Real \/ Stuck \/ Incomplete
+TNext == Real \/ Silent \/ Stuck \/ Incomplete
 TSpec == TInit /\ [][TNext]_tvars
 
 Done == (l = Len(T) + 1 /\ pc = "done") => PrintT(<<"ACCEPT", Traces[tid].id>>)
